@@ -4,7 +4,7 @@
 # regenerated Gen/*.lean files and rebuilt .olean files never touch the shared library other workers are using.
 # Prints the verdict lines; the full log goes to <logfile> (default: discarded with the copy).
 R="$1"; P="$2"; TIER="${3:-quick}"; LOG="$4"
-HERE="$(cd "$(dirname "$0")/.." && pwd)"
+HERE="${ISO_SRC:-$(cd "$(dirname "$0")/.." && pwd)}"
 ISO=$(mktemp -d /tmp/iso_XXXXXX)
 rsync -a --exclude .git --exclude evidence --exclude seeded --exclude replays --exclude '__pycache__' "$HERE"/ "$ISO"/verif/
 VERIF_EVIDENCE_DIR="$ISO/evidence" TEMPEST_REPO="$R" "$ISO/verif/check" "$P" --tier "$TIER" > "$ISO/log" 2>&1; RC=$?
